@@ -956,7 +956,7 @@ ICMPv6::handover_key_req_type ICMPv6::handover_key_req_type::from_option(const o
     handover_key_req_type output;
     InputMemoryStream stream(opt.data_ptr(), opt.data_size());
     stream.skip(1);
-    output.AT = (stream.read<uint8_t>() >> 4) & 0x3;
+    output.AT = (stream.read<uint8_t>() >> 4) & 0xf;
     // is there enough size for the indicated padding?
     if (!stream.can_read(*opt.data_ptr())) {
         throw malformed_option();
@@ -972,7 +972,7 @@ ICMPv6::handover_key_reply_type ICMPv6::handover_key_reply_type::from_option(con
     handover_key_reply_type output;
     InputMemoryStream stream(opt.data_ptr(), opt.data_size());
     stream.skip(1);
-    output.AT = (stream.read<uint8_t>() >> 4) & 0x3;
+    output.AT = (stream.read<uint8_t>() >> 4) & 0xf;
     output.lifetime = stream.read_be<uint16_t>();
     // is there enough size for the indicated padding?
     if (!stream.can_read(*opt.data_ptr())) {
